@@ -741,16 +741,17 @@ Definition lay_ok (f : fsys) (w : writer) : Prop :=
   end.
 
 Definition calmf (w : writer) : Prop :=
-  w_cok w = false /\ w_aborted w = false /\ w_pub w = false /\ w_lostf w = false.
+  w_cok w = false /\ w_aborted w = false /\ w_pub w = false /\ w_lostf w = false /\ w_gone w = false.
 Definition quiet (w : writer) : Prop := w_hopen w = false /\ calmf w.
 
 Definition rest_ok (w : writer) : Prop :=
   (w_hopen w = true -> w_lay w = LPre /\ w_cok w = false /\ w_aborted w = false) /\
   (w_cok w = false -> w_aborted w = false -> w_lay w = LPre \/ w_lay w = LPost) /\
   (w_cok w = true -> w_pub w = true /\ w_hopen w = false /\ (w_lay w = LPost \/ w_lay w = LNone)
-                     /\ (w_gone w = false -> w_lay w = LPost)) /\
+                     /\ (w_gone w = false -> w_lay w = LPost) /\ (w_gone w = true -> w_lay w = LNone)) /\
   (w_pub w = true -> w_cok w = true) /\
-  (w_lostf w = true -> w_aborted w = true).
+  (w_lostf w = true -> w_aborted w = true) /\
+  (w_cok w = false -> w_gone w = false).
 
 Definition ph_ok (w : writer) : Prop :=
   match w_ph w with
@@ -905,6 +906,12 @@ Proof.
   destruct e, (w_lay w); try destruct (w_cok w) eqn:E; cbn; repeat split; auto.
 Qed.
 
+Lemma clear_claim_gone b e w : w_cok w = false -> w_gone (clear_claim b e w) = w_gone w.
+Proof.
+  intro Hc. unfold clear_claim. rewrite Hc. destruct (str_eqb (w_base w) b); [|reflexivity].
+  destruct e, (w_lay w); reflexivity.
+Qed.
+
 Lemma clear_claim_lay b e w :
   w_lay (clear_claim b e w) =
     if str_eqb (w_base w) b then
@@ -980,8 +987,13 @@ Proof.
     unfold ph_ok, rest_ok, quiet, calmf in *. rewrite F5, F6, F7, F8, F9, F10, Fl.
     assert (Hgone : w_cok w = true -> w_lay w <> LNone -> e = Dat -> w_gone (clear_claim b e w) = true).
     { intros Hc Hl He. unfold clear_claim. rewrite Eb, str_eqb_refl, He, Hc. destruct (w_lay w); [contradiction|reflexivity..]. }
+    assert (Hgt : e = Tmp -> w_gone (clear_claim b e w) = w_gone w).
+    { intros He. unfold clear_claim. rewrite Eb, str_eqb_refl, He. destruct (w_lay w); reflexivity. }
+    assert (Hgc : w_cok w = false -> w_gone (clear_claim b e w) = w_gone w).
+    { intros Hc. unfold clear_claim. rewrite Eb, str_eqb_refl, Hc. destruct e, (w_lay w); reflexivity. }
     destruct (w_ph w); try (destruct Hca as [Hc|Hc]; intuition congruence).
-    all: destruct e; destruct (w_lay w) eqn:El; destruct Hca as [Hc|Hc];
+    all: destruct (w_cok w) eqn:Ec; [|rewrite (Hgc eq_refl)].
+    all: destruct e; try rewrite (Hgt eq_refl); destruct (w_lay w) eqn:El; destruct Hca as [Hc|Hc];
       intuition (try congruence).
     all: try (exfalso; assert (Hx : w_gone (clear_claim b Dat w) = true) by (apply Hgone; congruence); congruence).
   - intros a1 a2 x1 x2 Hne H1 H2 Eb.
@@ -1020,7 +1032,7 @@ Ltac ready_phase := match goal with Hr : is_ready ?w = true |- _ =>
 
 Lemma rest_hopen w : rest_ok w -> w_hopen w = true -> w_lay w = LPre /\ calmf w.
 Proof.
-  unfold rest_ok, calmf. intros [H1 [H2 [H3 [H4 H5]]]] Hh. destruct (H1 Hh) as [E1 [E2 E3]].
+  unfold rest_ok, calmf. intros [H1 [H2 [H3 [H4 [H5 H6]]]]] Hh. destruct (H1 Hh) as [E1 [E2 E3]].
   repeat split; auto.
   - destruct (w_pub w); [rewrite H4 in E2 by reflexivity; discriminate|reflexivity].
   - destruct (w_lostf w); [rewrite H5 in E3 by reflexivity; discriminate|reflexivity].
@@ -1029,7 +1041,7 @@ Qed.
 Lemma rest_nopub w : rest_ok w -> w_pub w = false -> w_aborted w = false ->
   (w_lay w = LPre \/ w_lay w = LPost) /\ calmf w.
 Proof.
-  unfold rest_ok, calmf. intros [H1 [H2 [H3 [H4 H5]]]] Hp Ha.
+  unfold rest_ok, calmf. intros [H1 [H2 [H3 [H4 [H5 H6]]]]] Hp Ha.
   assert (Hc : w_cok w = false).
   { destruct (w_cok w); [|reflexivity]. destruct (H3 eq_refl) as [E _]. congruence. }
   repeat split; auto.
@@ -1079,8 +1091,10 @@ Proof.
         try apply (clear_claim_fields (w_base w) Dat w); reflexivity.
     + unfold lay_ok. cbn. exact I.
     + destruct (clear_claim_fields (w_base w) Dat w) as [F1 [F2 [F3 [F4 [F5 [F6 [F7 [F8 [F9 [F10 F11]]]]]]]]]].
+      assert (Hcf : w_cok w = false) by (unfold ph_ok, quiet, calmf in Hp; rewrite Heqp in Hp; tauto).
+      pose proof (clear_claim_gone (w_base w) Dat w Hcf) as Fg.
       destruct r, again; rewrite ?nth_error_map, ?Ew; cbn [option_map];
-        unfold ph_ok, quiet, calmf in *; rewrite Heqp in Hp; cbn; rewrite ?F6, ?F7, ?F8, ?F9, ?F10; intuition.
+        unfold ph_ok, quiet, calmf in *; rewrite Heqp in Hp; cbn; rewrite ?F6, ?F7, ?F8, ?F9, ?F10, ?Fg; intuition.
     + intro Hh. exfalso.
       assert (Hno : w_hasino w = false) by (apply (early_hasino s a w G Ew); rewrite Heqp; reflexivity).
       destruct (clear_claim_fields (w_base w) Dat w) as [_ [_ [_ [F4 _]]]].
@@ -1153,7 +1167,9 @@ Proof.
       * apply (others_none s a w L Ew). congruence.
       * cbn. exact F1.
       * unfold lay_ok. cbn. rewrite F1, F3, F4, (D_rename _ _ _ _ Hne Hpr), fname_eqb_refl. auto.
-      * unfold ph_ok, quiet, calmf in *. rewrite Heqp in Hp. cbn. rewrite F6, F7, F8, F9, F10. intuition.
+      * assert (Hcf : w_cok w = false) by (unfold ph_ok, quiet, calmf in Hp; rewrite Heqp in Hp; tauto).
+        pose proof (clear_claim_gone (w_base w) Dat w Hcf) as Fg.
+        unfold ph_ok, quiet, calmf in *. rewrite Heqp in Hp. cbn. rewrite F6, F7, F8, F9, F10, Fg. intuition.
       * cbn. auto.
       * intros a' w2 Hne' H2 Eb Hh2 Hd2. rewrite (D_rename _ _ _ _ Hne Hpr), fname_eqb_refl, Ht in Hd2.
         inversion Hd2 as [Ei].
@@ -1191,10 +1207,12 @@ Proof.
       all: rewrite ?E1, ?iown_unlink, ?fname_eqb_refl.
       all: destruct (w_lay w); intuition.
     + (* ph_ok *)
+      assert (Hcf : w_cok w = false) by (unfold quiet, calmf in Hq; tauto).
+      pose proof (clear_claim_gone (w_base w) e w Hcf) as Fg.
       unfold ph_ok, rest_ok, quiet, calmf in *.
       phase_of Hg; destruct e; try discriminate Hg;
       destruct r; rewrite ?nth_error_map, ?Ew; cbn [option_map]; destruct (own_check c); cbn;
-        rewrite ?F6, ?F7, ?F8, ?F9, ?F10, ?Fl; intuition (try congruence).
+        rewrite ?F6, ?F7, ?F8, ?F9, ?F10, ?Fl, ?Fg; intuition (try congruence).
       all: destruct (w_lay w); congruence.
     + (* own inode at the final path *)
       intros Hh Hd.
@@ -1226,4 +1244,409 @@ Proof.
   - (* LOpen *) step_inv H; destruct L; constructor; auto.
   - (* LReadDir *) step_inv H. destruct L; constructor; auto.
   - (* LParse *) step_inv H. exact L.
+Qed.
+
+(* ---------------------------------------------------------------- no half-published file without an injected failure *)
+Definition settled (w : writer) : Prop :=
+  w_lay w = LPost -> (w_cok w = true /\ w_pub w = true) \/ w_ph w = PRenamed.
+
+Definition trans (w w' : writer) : Prop :=
+  (w_lay w' = LPost -> w_lay w = LPost \/ w_ph w' = PRenamed) /\
+  (w_cok w = true -> w_cok w' = true) /\ (w_pub w = true -> w_pub w' = true) /\
+  (w_ph w = PRenamed -> w_ph w' = PRenamed \/ (w_cok w' = true /\ w_pub w' = true)).
+
+Lemma trans_settled w w' : trans w w' -> settled w -> settled w'.
+Proof.
+  unfold trans, settled. intros [T1 [T2 [T3 T4]]] S Hl.
+  destruct (T1 Hl) as [Hl0|Hr]; [|right; exact Hr].
+  destruct (S Hl0) as [[Hc Hp]|Hr]; [left; auto|]. destruct (T4 Hr); auto.
+Qed.
+
+Lemma trans_refl w : trans w w.
+Proof. unfold trans. intuition. Qed.
+
+Lemma trans_clear b e w : trans w (clear_claim b e w).
+Proof.
+  destruct (clear_claim_fields b e w) as [F1 [F2 [F3 [F4 [F5 [F6 [F7 [F8 [F9 [F10 F11]]]]]]]]]].
+  pose proof (clear_claim_lay b e w) as Fl.
+  unfold trans. rewrite F5, F7, F9, Fl. repeat split; auto.
+  intro H. left. destruct (str_eqb (w_base w) b); [|exact H]. destruct e, (w_lay w); congruence.
+Qed.
+
+Definition all_settled (s : state) : Prop := forall a w, W s a = Some w -> settled w.
+
+(* shapes of the writer list after a step *)
+Lemma settled_upd s a w w' f rd sc :
+  all_settled s -> W s a = Some w -> trans w w' -> all_settled (mkS f (upd a w' (s_ws s)) rd sc).
+Proof.
+  intros A Hw T a' x Hx. unfold W in Hx; cbn [s_ws] in Hx. rewrite nth_error_upd in Hx.
+  destruct (a' =? a).
+  - destruct (a <? length (s_ws s)); [|discriminate]. inversion Hx; subst x. apply (trans_settled w); [exact T|apply (A _ _ Hw)].
+  - apply (A _ _ Hx).
+Qed.
+
+Lemma settled_map_upd s a w w' b e f rd sc :
+  all_settled s -> W s a = Some w -> trans (clear_claim b e w) w' -> w_ph (clear_claim b e w) = w_ph w ->
+  all_settled (mkS f (upd a w' (map (clear_claim b e) (s_ws s))) rd sc).
+Proof.
+  intros A Hw T _ a' x Hx. unfold W in Hx; cbn [s_ws] in Hx. rewrite nth_error_upd, map_length in Hx.
+  destruct (a' =? a).
+  - destruct (a <? length (s_ws s)); [|discriminate]. inversion Hx; subst x.
+    apply (trans_settled (clear_claim b e w)); [exact T|]. apply (trans_settled w); [apply trans_clear|apply (A _ _ Hw)].
+  - rewrite nth_error_map in Hx. destruct (nth_error (s_ws s) a') as [y|] eqn:E; [|discriminate]. inversion Hx; subst x.
+    apply (trans_settled y); [apply trans_clear|apply (A _ _ E)].
+Qed.
+
+Lemma settled_map s b e f rd sc :
+  all_settled s -> all_settled (mkS f (map (clear_claim b e) (s_ws s)) rd sc).
+Proof.
+  intros A a' x Hx. unfold W in Hx; cbn [s_ws] in Hx. rewrite nth_error_map in Hx.
+  destruct (nth_error (s_ws s) a') as [y|] eqn:E; [|discriminate]. inversion Hx; subst x.
+  apply (trans_settled y); [apply trans_clear|apply (A _ _ E)].
+Qed.
+
+Ltac tr_solve := unfold trans; cbn; repeat match goal with E : w_ph _ = _ |- _ => rewrite E in *; clear E end;
+  intuition (try congruence).
+
+Lemma settled_step c s l s' : faultfree l = true -> all_settled s -> step c s l = Some s' -> all_settled s'.
+Proof.
+  intros Hf A H. destruct l; cbn [step] in H.
+  - (* LBegin *) step_inv H. intros a' x Hx. unfold W in Hx; cbn [s_ws] in Hx.
+    destruct (lt_dec a' (length (s_ws s))).
+    + rewrite nth_error_app1 in Hx by lia. apply (A _ _ Hx).
+    + rewrite nth_error_app2 in Hx by lia. destruct (a' - length (s_ws s)) as [|k]; [|destruct k; discriminate].
+      inversion Hx; subst x. intro; discriminate.
+  - step_inv H; phase_of Hg; unfold set_w, set_fs_w; apply (settled_upd s a w _ _ _ _ A Ew); tr_solve.
+  - step_inv H; phase_of Hg; unfold set_w, set_fs_w; apply (settled_upd s a w _ _ _ _ A Ew); tr_solve.
+  - step_inv H; phase_of Hg; unfold set_w, set_fs_w; destruct ok; apply (settled_upd s a w _ _ _ _ A Ew); tr_solve.
+  - (* LUnreserve *) step_inv H. destruct r; cbn iota beta; rewrite ?nth_error_map, ?Ew; cbn [option_map].
+    + apply (settled_map_upd s a w _ _ _ _ _ _ A Ew); [|apply clear_claim_fields].
+      destruct (clear_claim_fields (w_base w) Dat w) as [F1 [F2 [F3 [F4 [F5 _]]]]]. destruct again; tr_solve.
+    + apply (settled_upd s a w _ _ _ _ A Ew). destruct again; tr_solve.
+    + apply (settled_upd s a w _ _ _ _ A Ew). destruct again; tr_solve.
+  - step_inv H; phase_of Hg; unfold set_w, set_fs_w; apply (settled_upd s a w _ _ _ _ A Ew); tr_solve.
+  - step_inv H. unfold set_fs_w. apply (settled_upd s a w _ _ _ _ A Ew). tr_solve.
+  - step_inv H. ready_phase. destruct in_abort; unfold set_w; apply (settled_upd s a w _ _ _ _ A Ew); tr_solve.
+  - step_inv H; ready_phase; unfold set_w, set_fs_w; apply (settled_upd s a w _ _ _ _ A Ew); tr_solve.
+  - step_inv H; unfold set_w; try destruct ok; apply (settled_upd s a w _ _ _ _ A Ew); tr_solve.
+  - (* LRename *) step_inv H; phase_of Hg.
+    + rewrite nth_error_map, Ew. cbn [option_map].
+      apply (settled_map_upd s a w _ _ _ _ _ _ A Ew); [|apply clear_claim_fields].
+      destruct (n =? w_ino w); unfold trans; cbn; intuition.
+    + unfold set_w. apply (settled_upd s a w _ _ _ _ A Ew). tr_solve.
+  - (* LDirSync *) step_inv H; phase_of Hg.
+    + unfold set_fs_w. apply (settled_upd s a w _ _ _ _ A Ew). tr_solve.
+    + discriminate Hf.
+  - step_inv H. ready_phase. unfold set_w. apply (settled_upd s a w _ _ _ _ A Ew). tr_solve.
+  - (* LAbortRm *) step_inv H. phase_of Hg; destruct e; try discriminate Hg; destruct r; try discriminate Hf;
+      cbn iota beta; rewrite ?nth_error_map, ?Ew; cbn [option_map].
+    all: try (apply (settled_map_upd s a w _ _ _ _ _ _ A Ew); [|apply clear_claim_fields]).
+    all: try (apply (settled_upd s a w _ _ _ _ A Ew)).
+    all: try (destruct (clear_claim_fields (w_base w) Tmp w) as [F1 [F2 [F3 [F4 [F5 _]]]]]).
+    all: try (destruct (clear_claim_fields (w_base w) Dat w) as [G1 [G2 [G3 [G4 [G5 _]]]]]).
+    all: destruct (own_check c); unfold trans; cbn; rewrite ?F5, ?G5, ?Heqp; intuition (try congruence).
+  - (* LRm *) step_inv H; try exact A. apply settled_map; exact A.
+  - step_inv H; intros a' x Hx; apply (A a' x Hx).
+  - step_inv H; intros a' x Hx; apply (A a' x Hx).
+  - step_inv H; exact A.
+Qed.
+
+
+(* ---------------------------------------------------------------- conclusions *)
+Lemma run_g_run c ls : forall s s', run_g c s ls = Some s' -> run c s ls = Some s'.
+Proof.
+  induction ls as [|l t IH]; simpl; intros s s' H; [exact H|].
+  destruct (guard_ok s l); [|discriminate]. destruct (step c s l); [apply IH; exact H|discriminate].
+Qed.
+
+Lemma inv_run_g c ls : forall s s', GInv s -> LInv s -> run_g c s ls = Some s' -> GInv s' /\ LInv s'.
+Proof.
+  induction ls as [|l t IH]; simpl; intros s s' G L H.
+  - inversion H; subst. auto.
+  - destruct (guard_ok s l) eqn:Eg; [|discriminate]. destruct (step c s l) as [s1|] eqn:E; [|discriminate].
+    apply (IH s1 s' (ginv_step _ _ _ _ G E) (linv_step _ _ _ _ G L Eg E) H).
+Qed.
+
+Lemma settled_run_g c ls : forall s s', forallb faultfree ls = true -> all_settled s ->
+  run_g c s ls = Some s' -> all_settled s'.
+Proof.
+  induction ls as [|l t IH]; simpl; intros s s' Hf A H.
+  - inversion H; subst. exact A.
+  - apply andb_true_iff in Hf as [Hf1 Hf2].
+    destruct (guard_ok s l); [|discriminate]. destruct (step c s l) as [s1|] eqn:E; [|discriminate].
+    apply (IH s1 s' Hf2 (settled_step _ _ _ _ Hf1 A E) H).
+Qed.
+
+Lemma all_settled_init : all_settled s0.
+Proof. intros a w H. unfold W in H; simpl in H. destruct a; discriminate. Qed.
+
+Lemma cok_rest w : ph_ok w -> w_cok w = true -> rest_ok w.
+Proof.
+  unfold ph_ok, quiet, calmf. intros Hp Hc. destruct (w_ph w); try exact Hp; intuition congruence.
+Qed.
+
+(* every file whose Close succeeded and that was not tombstoned is listed, with the bytes written *)
+Lemma spec_in_scan c s b d :
+  GInv s -> LInv s -> In (b, d) (spec_files s) -> valid c d = true -> In (b, d) (scan c s).
+Proof.
+  intros G L Hin Hv. unfold spec_files in Hin. apply in_flat_map in Hin as [w [Hw Hin]].
+  destruct (w_cok w) eqn:Hc; [|destruct Hin]. destruct (w_gone w) eqn:Hg; [destruct Hin|].
+  cbn in Hin. destruct Hin as [Hin|[]]. inversion Hin; subst b d.
+  apply In_nth_error in Hw as [a Hw]. change (W s a = Some w) in Hw.
+  pose proof (cok_rest _ (l_ph _ L _ _ Hw) Hc) as [_ [_ [H3 _]]].
+  destruct (H3 Hc) as [_ [_ [_ [Hpost _]]]]. specialize (Hpost Hg).
+  pose proof (l_lay _ L _ _ Hw) as Hl. unfold lay_ok in Hl. rewrite Hpost in Hl. destruct Hl as [Hh Hd].
+  destruct (g_w_ino _ G _ _ Hw Hh) as [_ Hdat].
+  unfold scan. apply in_flat_map. exists ((w_base w, Dat), w_ino w). split.
+  - apply dlookup_In. exact Hd.
+  - rewrite data_of_idata, Hdat, Hv. left. reflexivity.
+Qed.
+
+(* everything listed is such a file, or a complete file whose Close failed at (or is about to
+   reach) the directory fsync and that has not been removed since *)
+Lemma scan_in_spec c s b d :
+  GInv s -> LInv s -> valid c [] = false -> In (b, d) (scan c s) ->
+  In (b, d) (spec_files s) \/ In (b, d) (window_files s).
+Proof.
+  intros G L Hv Hin. destruct (scan_sound c s b d G Hv Hin) as [a [w [Hw [Eb [Hh [Hd [Ed _]]]]]]].
+  rewrite <- Eb in Hd. pose proof (l_post _ L _ _ Hw Hh Hd) as Hpost.
+  assert (HinW : In w (s_ws s)) by (apply (nth_error_In _ a); exact Hw).
+  destruct (w_cok w) eqn:Hc.
+  - left. pose proof (cok_rest _ (l_ph _ L _ _ Hw) Hc) as [_ [_ [H3 _]]].
+    destruct (H3 Hc) as [_ [_ [_ [_ Hgone]]]].
+    assert (Hg : w_gone w = false) by (destruct (w_gone w); [specialize (Hgone eq_refl); congruence|reflexivity]).
+    unfold spec_files. apply in_flat_map. exists w. split; [exact HinW|]. rewrite Hc, Hg. cbn. left. congruence.
+  - right. unfold window_files. apply in_flat_map. exists w. split; [exact HinW|]. rewrite Hpost, Hc. left. congruence.
+Qed.
+
+(* no injected failure at the directory fsync / at Abort's removal, and no Close between its rename
+   and its directory fsync: nothing is half-published *)
+Lemma window_empty s :
+  all_settled s -> (forall a w, W s a = Some w -> w_ph w <> PRenamed) -> window_files s = [].
+Proof.
+  intros A Hr. unfold window_files.
+  assert (H : forall w, In w (s_ws s) ->
+            match w_lay w with LPost => if w_cok w then [] else [(w_base w, w_written w)] | _ => [] end = []).
+  { intros w Hw. apply In_nth_error in Hw as [a Hw]. destruct (w_lay w) eqn:El; try reflexivity.
+    destruct (A a w Hw El) as [[Hc _]|Hp]; [rewrite Hc; reflexivity|]. exfalso. apply (Hr a w Hw Hp). }
+  induction (s_ws s) as [|x t IH]; [reflexivity|]. simpl. rewrite H by (left; reflexivity).
+  apply IH. intros w Hw. apply H. right. exact Hw.
+Qed.
+
+(* the D8 witness on the model without the ownership check, and the same calls with it *)
+Definition d8_cfg (own : bool) : cfg := mkC own 100 (fun d => negb (length d =? 0)).
+Definition d8_ops : list op :=
+  let dx := fun _ : nat => lit "x" in
+  [OCreate dx 0 None; OWrite 0 (lit "AAAA") 4; OTombstone (lit "x") None;
+   OCreate dx 1 None; OWrite 1 (lit "BB") 2; OClose 0 None].
+
+Lemma d8_refuted :
+  exists s, exec_all (d8_cfg false) s0 d8_ops = Some s /\
+            In (lit "x", lit "AAAA") (spec_files s) /\ read_file s (lit "x") = Some (lit "BB") /\
+            scan (d8_cfg false) s = [(lit "x", lit "BB")].
+Proof. eexists. split; [vm_compute; reflexivity|]. vm_compute. auto. Qed.
+
+Lemma d8_fixed :
+  exists s, exec_all (d8_cfg true) s0 d8_ops = Some s /\ spec_files s = [] /\ scan (d8_cfg true) s = [].
+Proof. eexists. split; [vm_compute; reflexivity|]. vm_compute. auto. Qed.
+
+(* TombstoneFile leaves nothing under the pointer and touches no other name *)
+Lemma tombstone_clean c s b s' :
+  run c s (plan_tombstone b None s) = Some s' ->
+  D (s_fs s') (b, Dat) = None /\ D (s_fs s') (b, Tmp) = None /\
+  (forall n, fst n <> b -> D (s_fs s') n = D (s_fs s) n) /\
+  (forall i, idata (s_fs s') i = idata (s_fs s) i).
+Proof.
+  unfold plan_tombstone, fails, rm_res. intro H. cbn [run] in H.
+  destruct (step c s (LRm b Dat (if present (b, Dat) (s_fs s) then ROk else RNoent))) as [s1|] eqn:E1; [|discriminate].
+  assert (F1 : s_fs s1 = apply_rm (if present (b, Dat) (s_fs s) then ROk else RNoent) (b, Dat) (s_fs s)).
+  { cbn [step] in E1. destruct (present (b, Dat) (s_fs s)); step_inv E1; reflexivity. }
+  rewrite <- F1 in H.
+  destruct (step c s1 (LRm b Tmp (if present (b, Tmp) (s_fs s1) then ROk else RNoent))) as [s2|] eqn:E2; [|discriminate].
+  inversion H; subst s2.
+  assert (F2 : s_fs s' = apply_rm (if present (b, Tmp) (s_fs s1) then ROk else RNoent) (b, Tmp) (s_fs s1)).
+  { cbn [step] in E2. destruct (present (b, Tmp) (s_fs s1)); step_inv E2; reflexivity. }
+  assert (E : fname_eqb (b, Dat) (b, Tmp) = false) by (apply fname_eqb_neq; congruence).
+  assert (HD1 : D (s_fs s1) (b, Dat) = None).
+  { rewrite F1. rewrite present_D. destruct (D (s_fs s) (b, Dat)) eqn:Ed; cbn [apply_rm]; [rewrite D_unlink, fname_eqb_refl; reflexivity|exact Ed]. }
+  repeat split.
+  - rewrite F2. rewrite present_D. destruct (D (s_fs s1) (b, Tmp)); cbn [apply_rm]; [rewrite D_unlink, E|]; exact HD1.
+  - rewrite F2. rewrite present_D. destruct (D (s_fs s1) (b, Tmp)) eqn:Ed; cbn [apply_rm]; [rewrite D_unlink, fname_eqb_refl; reflexivity|exact Ed].
+  - intros n Hn.
+    assert (N1 : fname_eqb n (b, Dat) = false) by (apply fname_eqb_neq; intro; subst n; apply Hn; reflexivity).
+    assert (N2 : fname_eqb n (b, Tmp) = false) by (apply fname_eqb_neq; intro; subst n; apply Hn; reflexivity).
+    rewrite F2. destruct (present (b, Tmp) (s_fs s1)); cbn [apply_rm]; rewrite ?D_unlink, ?N2;
+      rewrite F1; destruct (present (b, Dat) (s_fs s)); cbn [apply_rm]; rewrite ?D_unlink, ?N1; reflexivity.
+  - intro i. rewrite F2, apply_rm_idata, F1, apply_rm_idata. reflexivity.
+Qed.
+
+(* CreateFile's creating steps only add names: whatever was reachable stays reachable, unchanged
+   (every run, guarded or not) *)
+Lemma create_adds_only c s l s' :
+  GInv s ->
+  match l with LBegin _ | LReserve _ _ _ | LGiveUp _ | LResClose _ _ | LTmpCreate _ _ => True | _ => False end ->
+  step c s l = Some s' ->
+  forall n i, D (s_fs s) n = Some i ->
+    D (s_fs s') n = Some i /\ idata (s_fs s') i = idata (s_fs s) i.
+Proof.
+  intros G Hl H n i Hd.
+  assert (Hlt : (i =? length (f_ino (s_fs s))) = false).
+  { destruct n as [b0 e0]. destruct (g_dir _ G _ _ _ Hd) as [o [Ho _]]. apply iown_lt in Ho. apply Nat.eqb_neq. lia. }
+  destruct l; try contradiction; cbn [step] in H; step_inv H; cbn [s_fs set_w set_fs_w]; auto.
+  - unfold cres_ok in *. rewrite present_D in *. rewrite D_create, idata_create, Hlt.
+    destruct (fname_eqb n (b, Dat)) eqn:E; [|auto].
+    apply fname_eqb_eq in E. subst n. rewrite Hd in *. discriminate.
+  - unfold cres_ok in *. rewrite present_D in *. rewrite D_create, idata_create, Hlt.
+    destruct (fname_eqb n (w_base w, Tmp)) eqn:E; [|auto].
+    apply fname_eqb_eq in E. subst n. rewrite Hd in *. discriminate.
+Qed.
+
+(* ... and the one removing step of CreateFile removes the caller's own 0-byte reservation *)
+Lemma unreserve_own c s a r s' :
+  GInv s -> LInv s -> step c s (LUnreserve a r) = Some s' ->
+  exists w, W s a = Some w /\ D (s_fs s) (w_base w, Dat) = Some (w_res w) /\ idata (s_fs s) (w_res w) = Some [] /\
+    (forall n, n <> (w_base w, Dat) -> D (s_fs s') n = D (s_fs s) n) /\
+    (forall i, idata (s_fs s') i = idata (s_fs s) i).
+Proof.
+  intros G L H. cbn [step] in H. step_inv H. exists w. split; [exact Ew|].
+  pose proof (l_ph _ L _ _ Ew) as Hp. pose proof (l_lay _ L _ _ Ew) as Hl.
+  unfold ph_ok in Hp. rewrite Heqp in Hp. destruct Hp as [Hlay _]. unfold lay_ok in Hl. rewrite Hlay in Hl.
+  destruct Hl as [Hd Ho]. split; [exact Hd|]. split; [apply (g_res_empty _ G _ Ho)|]. cbn [s_fs]. split.
+  - intros n Hn. destruct r; cbn [apply_rm]; try reflexivity. rewrite D_unlink.
+    destruct (fname_eqb n (w_base w, Dat)) eqn:E; [apply fname_eqb_eq in E; contradiction|reflexivity].
+  - intro i. apply apply_rm_idata.
+Qed.
+
+(* With the ownership check, whatever the callers did before: a Close that returns nil has
+   published exactly the bytes written through this writer (atomic call, any fault schedule). *)
+Lemma close_owned c s a fault s' w :
+  GInv s -> own_check c = true -> W s a = Some w ->
+  run c s (plan_close c a fault s) = Some s' ->
+  last (plan_close c a fault s) LReadDir = LDirSync a true ->
+  read_file s' (w_base w) = Some (w_written w) /\
+  exists w', W s' a = Some w' /\ w_cok w' = true /\ w_written w' = w_written w /\ w_base w' = w_base w.
+Proof.
+  intros G Hoc Hw Hrun Hlast. unfold plan_close in *. unfold W in Hw. rewrite Hw in *. rewrite Hoc in *.
+  cbn [andb] in *.
+  destruct (lost (s_fs s) w) eqn:Elost; [cbn in Hlast; discriminate|].
+  destruct (negb (w_hopen w) || fails fault 0) eqn:E0; [cbn in Hlast; discriminate|].
+  destruct (fails fault 1) eqn:E1; [cbn in Hlast; discriminate|].
+  destruct (fails fault 2 || negb (present (w_base w, Tmp) (s_fs s))) eqn:E2; [cbn in Hlast; discriminate|].
+  destruct (fails fault 3) eqn:E3; [cbn in Hlast; discriminate|]. cbn [negb] in Hrun.
+  apply orb_false_iff in E0 as [Eh _]. apply negb_false_iff in Eh.
+  unfold lost in Elost. apply orb_false_iff in Elost as [_ Eln]. unfold lost_now in Eln. rewrite Eh in Eln. cbn in Eln.
+  destruct (dlookup (w_base w, Tmp) (f_dir (s_fs s))) as [j|] eqn:Ej; [|discriminate].
+  apply negb_false_iff, Nat.eqb_eq in Eln. subst j.
+  cbn [run] in Hrun.
+  destruct (step c s (LSync a true)) as [s1|] eqn:S1; [|discriminate].
+  cbn [step] in S1. rewrite Hw in S1. step_inv S1.
+  match type of Hrun with context [step c ?st (LHClose a true)] => destruct (step c st (LHClose a true)) as [s2|] eqn:S2; [|discriminate] end.
+  cbn [step set_fs_w s_ws] in S2. rewrite (nth_error_upd_same _ _ _ _ Hw) in S2. cbn in S2. inversion S2; subst s2; clear S2.
+  match type of Hrun with context [step c ?st (LRename a true)] => destruct (step c st (LRename a true)) as [s3|] eqn:S3; [|discriminate] end.
+  cbn [step set_w set_fs_w s_ws s_fs] in S3.
+  assert (N1 : nth_error (upd a (set_ph PSynced w) (s_ws s)) a = Some (set_ph PSynced w)) by apply (nth_error_upd_same _ _ _ _ Hw).
+  rewrite (nth_error_upd_same _ _ _ _ N1) in S3. cbn [w_ph set_hopen set_ph guardb w_base] in S3.
+  change (f_dir (fs_fsync (w_ino w) (s_fs s))) with (f_dir (s_fs s)) in S3. rewrite Ej in S3.
+  cbn [w_ino] in S3. rewrite Nat.eqb_refl in S3. inversion S3; subst s3; clear S3.
+  destruct (step c _ (LDirSync a true)) as [s4|] eqn:S4; [|discriminate]. inversion Hrun; subst s4; clear Hrun.
+  cbn [step s_ws] in S4.
+  match type of S4 with context [nth_error (upd a ?x ?l) a] =>
+    assert (N2 : nth_error (upd a x l) a = Some x) end.
+  { apply nth_error_upd_same with (y := clear_claim (w_base w) Dat (set_hopen false (set_ph PHClosed (set_ph PSynced w)))).
+    rewrite nth_error_map. rewrite (nth_error_upd_same _ _ _ _ N1). reflexivity. }
+  rewrite N2 in S4. cbn [w_ph set_ph guardb] in S4. inversion S4; subst s'; clear S4.
+  destruct (g_w_ino _ G _ _ Hw Hg2) as [_ Hdat].
+  assert (Hne : (w_base w, Tmp) <> (w_base w, Dat)) by congruence.
+  split.
+  - unfold read_file. cbn [s_fs set_fs_w].
+    change (dlookup (w_base w, Dat) (f_dir (fs_dirsync ?f))) with (D f (w_base w, Dat)).
+    match goal with |- context [D (fs_rename ?x ?y ?f) ?n] =>
+      rewrite (D_rename x y f n Hne) by (unfold D; cbn; rewrite Ej; discriminate) end.
+    rewrite fname_eqb_refl. unfold D. cbn [f_dir fs_fsync]. rewrite Ej. f_equal.
+    rewrite data_of_idata. cbn [s_fs]. 
+    change (idata (fs_dirsync ?f) ?i) with (idata f i). rewrite idata_rename, idata_fsync, Hdat. reflexivity.
+  - eexists. split; [unfold W; cbn [s_ws set_fs_w]; apply (nth_error_upd_same _ _ _ _ N2)|].
+    destruct (clear_claim_fields (w_base w) Dat (set_hopen false (set_ph PHClosed (set_ph PSynced w)))) as [F1 [_ [_ [_ [_ [_ [_ [_ [_ [_ F11]]]]]]]]]].
+    rewrite nth_error_map, (nth_error_upd_same _ _ _ _ N1). cbn [option_map].
+    cbn [w_cok w_written w_base set_published set_ph set_lay]. rewrite F1, F11. cbn. auto.
+Qed.
+
+
+(* ---------------------------------------------------------------- statements from the initial state *)
+Lemma C16_sound_run c ls s b d :
+  run c s0 ls = Some s -> valid c [] = false -> In (b, d) (scan c s) ->
+  exists a w, W s a = Some w /\ w_base w = b /\ w_hasino w = true /\
+              D (s_fs s) (b, Dat) = Some (w_ino w) /\ d = w_written w /\ valid c d = true.
+Proof. intros H Hv Hin. apply (scan_sound c s b d (ginv_run c ls s0 s ginv_init H) Hv Hin). Qed.
+
+Lemma C16_complete_run c ls s b d :
+  run_g c s0 ls = Some s -> In (b, d) (spec_files s) -> valid c d = true -> In (b, d) (scan c s).
+Proof.
+  intros H. destruct (inv_run_g c ls s0 s ginv_init linv_init H) as [G L]. apply (spec_in_scan c s b d G L).
+Qed.
+
+Lemma C16_spec_run c ls s b d :
+  run_g c s0 ls = Some s -> valid c [] = false -> In (b, d) (scan c s) ->
+  In (b, d) (spec_files s) \/ In (b, d) (window_files s).
+Proof.
+  intros H. destruct (inv_run_g c ls s0 s ginv_init linv_init H) as [G L]. apply (scan_in_spec c s b d G L).
+Qed.
+
+Lemma C16_exact_run c ls s b d :
+  run_g c s0 ls = Some s -> valid c [] = false -> forallb faultfree ls = true ->
+  (forall a w, W s a = Some w -> w_ph w <> PRenamed) ->
+  (In (b, d) (scan c s) <-> In (b, d) (spec_files s) /\ valid c d = true).
+Proof.
+  intros H Hv Hf Hr. destruct (inv_run_g c ls s0 s ginv_init linv_init H) as [G L].
+  pose proof (settled_run_g c ls s0 s Hf all_settled_init H) as A.
+  split.
+  - intro Hin. split.
+    + destruct (scan_in_spec c s b d G L Hv Hin) as [K|K]; [exact K|]. rewrite (window_empty s A Hr) in K. destruct K.
+    + destruct (scan_sound c s b d G Hv Hin) as [a [w [_ [_ [_ [_ [_ Hvd]]]]]]]. exact Hvd.
+  - intros [Hin Hvd]. apply (spec_in_scan c s b d G L Hin Hvd).
+Qed.
+
+Lemma C16_no_clobber_run c ls s l s' :
+  run c s0 ls = Some s ->
+  match l with LBegin _ | LReserve _ _ _ | LGiveUp _ | LResClose _ _ | LTmpCreate _ _ => True | _ => False end ->
+  step c s l = Some s' ->
+  forall n i, D (s_fs s) n = Some i -> D (s_fs s') n = Some i /\ idata (s_fs s') i = idata (s_fs s) i.
+Proof. intros H. apply (create_adds_only c s l s' (ginv_run c ls s0 s ginv_init H)). Qed.
+
+Lemma C16_unreserve_run c ls s a r s' :
+  run_g c s0 ls = Some s -> step c s (LUnreserve a r) = Some s' ->
+  exists w, W s a = Some w /\ D (s_fs s) (w_base w, Dat) = Some (w_res w) /\ idata (s_fs s) (w_res w) = Some [] /\
+    (forall n, n <> (w_base w, Dat) -> D (s_fs s') n = D (s_fs s) n) /\
+    (forall i, idata (s_fs s') i = idata (s_fs s) i).
+Proof.
+  intros H. destruct (inv_run_g c ls s0 s ginv_init linv_init H) as [G L]. apply (unreserve_own c s a r s' G L).
+Qed.
+
+Lemma C16_close_owned_run c ls s a fault s' w :
+  run c s0 ls = Some s -> own_check c = true -> W s a = Some w ->
+  run c s (plan_close c a fault s) = Some s' ->
+  last (plan_close c a fault s) LReadDir = LDirSync a true ->
+  read_file s' (w_base w) = Some (w_written w) /\
+  exists w', W s' a = Some w' /\ w_cok w' = true /\ w_written w' = w_written w /\ w_base w' = w_base w.
+Proof. intros H. apply (close_owned c s a fault s' w (ginv_run c ls s0 s ginv_init H)). Qed.
+
+(* non-vacuity: a guarded, fault-free run with a published file, a tombstone and a name reuse *)
+Definition nv_cfg : cfg := mkC true 100 (fun d => negb (length d =? 0)).
+Definition nv_labels : list label :=
+  let x := lit "x" in
+  [LBegin 0; LReserve 0 x COk; LResClose 0 true; LTmpCreate 0 COk; LWrite 0 (lit "AAAA") 4;
+   LSync 0 true; LHClose 0 true; LRename 0 true; LDirSync 0 true;
+   LBegin 1; LReserve 1 x CExists; LReserve 1 (lit "y") COk; LResClose 1 true; LTmpCreate 1 COk;
+   LRm x Dat ROk; LRm x Tmp RNoent;
+   LBegin 2; LReserve 2 x COk; LResClose 2 true; LTmpCreate 2 COk; LWrite 2 (lit "CC") 2;
+   LSync 2 true; LHClose 2 true; LRename 2 true; LDirSync 2 true].
+
+Lemma nv_run : exists s, run_g nv_cfg s0 nv_labels = Some s /\ forallb faultfree nv_labels = true /\
+  spec_files s = [(lit "x", lit "CC")] /\ scan nv_cfg s = [(lit "x", lit "CC")] /\
+  (forall a w, W s a = Some w -> w_ph w <> PRenamed).
+Proof.
+  eexists. split; [vm_compute; reflexivity|]. split; [reflexivity|]. split; [vm_compute; reflexivity|].
+  split; [vm_compute; reflexivity|].
+  intros a w H. unfold W in H. cbn in H.
+  destruct a as [|[|[|a]]]; cbn in H; try (inversion H; subst w; cbn; discriminate). destruct a; discriminate.
 Qed.
